@@ -115,6 +115,13 @@ def check_C02(ctx):
 import graph as graphmod
 
 
+def decwork_models(ctx, quick_bits=3):
+    """DecWork.tla: the decoder's bitmap / base positions / counters refine Codec.tla's sets (design level; bound to the
+    code by the snapshot obligations of Trace_Codec: stray = 0, counters = cardinalities, received sets)."""
+    for b in ([3, 4, 5] if ctx.thorough else [quick_bits]):
+        model_must_hold(ctx, "DecWork", "MC_DecWork_%d.cfg" % b)
+
+
 def codec_graph(ctx, role, inst, variant=""):
     """Model-checks MC_Codec for (role, instance) and turns the emitted edges into graph.json."""
     cfg = "MC_Codec_%s_%s%s.cfg" % (role, inst, variant)
@@ -305,6 +312,7 @@ def check_C07(ctx):
     if ctx.replay:
         return replay_script(ctx)
     variant = "_big" if ctx.thorough else ""
+    decwork_models(ctx)
     covered = 0
     for role in ("enc", "dec"):
         for inst in ("rate", "rs"):
@@ -326,6 +334,7 @@ def check_C05(ctx):
     if ctx.replay:
         return replay_script(ctx)
     algo_models(ctx)
+    decwork_models(ctx, quick_bits=4)
     covered = 0
     walks, length = (5000, 200) if ctx.thorough else (360, 40)
     for role in ("enc", "dec"):
@@ -369,6 +378,7 @@ def check_C12(ctx):
     ctx.assumptions = CODEC_ASSUME
     if ctx.replay:
         return replay_script(ctx)
+    decwork_models(ctx)
     covered = 0
     for role in ("enc", "dec"):
         for inst in ("rate", "rs"):
